@@ -32,6 +32,9 @@ def build_machines(seed, n_random):
 
 def _step(mach, sts, log, t):
     log.clear()
+    late = getattr(mach, "late_log", None)
+    if late is not None:
+        late.clear()
     res = "ok"
     try:
         mach.request(t)
@@ -40,6 +43,11 @@ def _step(mach, sts, log, t):
     ob = smgen.observe(mach, sts)
     ob["res"] = res
     ob["ev"] = [list(e) for e in log]
+    if late is not None:
+        first = sorted(tuple(e) for e in log if e[0] in ("enter", "leave", "called"))
+        second = sorted(tuple(e) for e in late)
+        if first != second:
+            ob["late_observer_differs"] = {"first": [list(e) for e in first], "late": [list(e) for e in second]}
     return ob
 
 
@@ -84,6 +92,61 @@ def reject_runs(machines, facs, seed, per_machine, length):
             _, filt = play([st["t"] for st in full if st["ok"]])
             rid += 1
             out.append({"id": rid, "m": M["name"], "init": init, "full": full, "filt": filt})
+    return out
+
+
+def reentrant_runs(seed, n):
+    """Machines whose enter handlers leave the state and come back (once): the state's enter event fires again while it is still being
+    dispatched.  Two observers per event, one registered before and one after the handler; per request both must have seen the same
+    events, the active set must be the current state and its ancestors, and the events must be those of the transitions performed."""
+    rng = random.Random(seed * 17 + 181818)
+    out = []
+    for rid in range(1, n + 1):
+        k = rng.choice([2, 3, 4])
+        names = [f"S{i}" for i in range(k)]
+        parent = {nm: "-" for nm in names}
+        if k >= 3 and rng.random() < 0.5:
+            parent[names[-1]] = names[0]                      # one child state
+        M = {"name": f"cyc{rid}", "states": names, "parent": parent, "init": names[0], "handler": {nm: [] for nm in names},
+             "trans": {f"go{j}": {"src": [x for x in names if x != names[j]], "dst": names[j]} for j in range(k)}}
+        early, late = [], []
+        g = smgen.GenMachine(M, early)           # registers the early observers (and its own late_log observers, unused here)
+        home = rng.randrange(k)
+        away = rng.choice([j for j in range(k) if j != home])
+        fired = {"n": 0}
+
+        def bounce(_d, g=g, home=home, away=away, fired=fired):
+            if fired["n"] == 0:
+                fired["n"] = 1
+                for t_ in (f"go{away}", f"go{home}"):
+                    try:
+                        g._perform_transition(t_)
+                    except Exception:  # noqa: BLE001   (refused when the state is entered as an ancestor: the handler goes on)
+                        pass
+
+        g.st[names[home]].events.enter.register(bounce)
+        smgen.attach_recorders(g, g.st, late)
+        steps = []
+        seq = [f"go{rng.randrange(k)}" for _ in range(6)]
+        if f"go{home}" not in seq:
+            seq[rng.randrange(len(seq))] = f"go{home}"
+        for t in seq:
+            early.clear()
+            late.clear()
+            ok = True
+            try:
+                g._perform_transition(t)
+            except Exception:  # noqa: BLE001
+                ok = False
+            ob = smgen.observe(g, g.st)
+            anc_ = []
+            c = ob["cur"]
+            while c != "-":
+                anc_.append(c)
+                c = parent[c]
+            steps.append({"t": t, "ok": ok, "cur": ob["cur"], "active_ok": sorted(anc_) == ob["active"],
+                          "early": sorted(tuple(e) for e in early if e[0] in ("enter", "leave", "called")), "late": sorted(tuple(e) for e in late)})
+        out.append({"id": rid, "machine": M, "home": names[home], "away": names[away], "steps": steps})
     return out
 
 
@@ -219,7 +282,9 @@ def par_held_runs(machines, facs, seed, per_machine):
             def hold(_d):
                 if held["n"] == 0:
                     held["n"] = 1
-                    held["cur"] = mach.current_state.name
+                    # the planned situation: the first thing request t1 does is leave the start state; if states were entered or
+                    # transitions completed before, this leave belongs to a nested transition requested by an enter handler
+                    held["nested"] = any(e[0] in ("enter", "called") for e in log)
                     inside.set()
                     release.wait()
 
@@ -241,7 +306,7 @@ def par_held_runs(machines, facs, seed, per_machine):
                 th1.join()
                 rec["skip"] = True
                 return
-            if held.get("cur") != c:
+            if held.get("nested"):
                 # the start state is left only later, inside a nested transition requested by an enter handler (the current state is
                 # another one by then): not the planned situation
                 release.set()
@@ -340,6 +405,7 @@ def run(ctx: Ctx):
     def main2(s):
         holder["obs"] = replay_paths(machines, facs, edges_by_m, walks)
         holder["rej"] = reject_runs(machines, facs, ctx.seed, 30 if ctx.quick else 300, 14)
+        holder["cyc"] = reentrant_runs(ctx.seed, 60 if ctx.quick else 600)
 
     s = simrt.run(main2, wall_timeout=1800)
     if s.outcome != "done" or s.errors:
@@ -369,6 +435,35 @@ def run(ctx: Ctx):
                            "with_rejected": acc[at - 1] if at else None, "without_rejected": r_["filt"][at - 1] if at else None,
                            "what": f"{r_['m']}: {v['clause']}: requests {[st['t'] + ('' if st['ok'] else '!') for st in r_['full']]}"
                                    + (f"; accepted request {at} ({acc[at - 1]['t']}) ends in {acc[at - 1]['cur']} after the rejected ones, in {r_['filt'][at - 1]['cur']} without them" if at else "")})
+    shown_cyc = 0
+    ctx.extra["machines_whose_handlers_re_enter_their_own_state"] = len(holder["cyc"])
+    for r_ in holder["cyc"]:
+        ctx.traces += 1
+        ctx.evaluations += len(r_["steps"])
+        for st in r_["steps"]:
+            clause = None
+            if st["early"] != st["late"]:
+                clause = "an-observer-registered-later-misses-events"
+            elif not st["active_ok"]:
+                clause = "active-set-is-not-current-state-and-ancestors"
+            elif not st["ok"] and st["early"]:
+                clause = "rejected-request-fired-events"
+            if clause and shown_cyc < 10:
+                shown_cyc += 1
+                ctx.violation({"check": "observers", "clause": clause, "machine": r_["machine"], "handler": f"enter {r_['home']}: go to {r_['away']} and back (first time only)",
+                               "request": st["t"], "seen_by_first_observer": [list(e) for e in st["early"]], "seen_by_later_observer": [list(e) for e in st["late"]],
+                               "what": f"machine with states {r_['machine']['states']} whose enter handler of {r_['home']} goes to {r_['away']} and back: request {st['t']}: {clause}; "
+                                       f"observer registered before the handler saw {st['early']}, after it {st['late']}"})
+                break
+    shown_late = 0
+    for o_ in obs:
+        d_ = o_["obs"].pop("late_observer_differs", None)
+        if d_ and shown_late < 10:
+            shown_late += 1
+            ctx.violation({"check": "observers", "clause": "an-observer-registered-later-misses-events", "machine": machines[o_["m"] - 1]["name"], "state": o_["c"], "request": o_["t"],
+                           "seen_by_first_observer": d_["first"], "seen_by_later_observer": d_["late"], "path": o_.get("path"),
+                           "what": f"{machines[o_['m'] - 1]['name']}: request {o_['t']} in {o_['c']}: an observer registered after the handlers saw {d_['late']}, "
+                                   f"the one registered before them {d_['first']} -- every performed transition fires its events once for every observer"})
     batch, groups, verdicts = judge(ctx, wd, obs, "seq")
     ctx.traces += len(obs)
     ctx.evaluations += len(obs)
